@@ -46,7 +46,15 @@ fn main() {
 
     let mut ctx = Ctx::new(&prop, tier, seed, shard, nshards, scale);
     let t0 = Instant::now();
-    let res = agv::props::run(&mut ctx);
+    let res = match std::panic::catch_unwind(std::panic::AssertUnwindSafe(|| agv::props::run(&mut ctx))) {
+        Ok(r) => r,
+        Err(_) => {
+            let ps = agv::evidence::take_panics();
+            let last = ps.last().map(|p| format!("{} at {}:{}", p.msg, p.file, p.line)).unwrap_or_default();
+            eprintln!("harness panic: {last}");
+            Err(format!("harness panic (not a verdict): {last}"))
+        }
+    };
     let wall = t0.elapsed().as_secs_f64();
     let mut j = ctx.to_json(wall);
     if let Err(e) = &res {
